@@ -14,6 +14,7 @@ import (
 	"github.com/gmrtd/gmrtd/cms"
 	"github.com/gmrtd/gmrtd/document"
 	"github.com/gmrtd/gmrtd/iso7816"
+	"github.com/gmrtd/gmrtd/mobile"
 	"github.com/gmrtd/gmrtd/password"
 	"github.com/gmrtd/gmrtd/reader"
 	"github.com/gmrtd/gmrtd/verifier"
@@ -456,6 +457,58 @@ func TestReaderAndVerifier(t *testing.T) {
 			evid.Count("verifier-soft-error-on-bad-signature", 1)
 		} else {
 			evid.Count("verifier-hard-error-on-bad-signature", 1)
+		}
+
+		// One verifier object over a HISTORY of calls (the plain verifier and the mobile binding): the
+		// challenge in force is the one set last; every Verify hard-fails exactly when a challenge is in
+		// force and differs from the recorded nonce - whatever was verified or set before.
+		for _, kind := range []string{"verifier", "mobile"} {
+			var vv *verifier.Verifier
+			var mv *mobile.Verifier
+			if kind == "verifier" {
+				vv = verifier.NewVerifier(pool)
+			} else {
+				mv = mobile.NewVerifier()
+			}
+			var inForce []byte
+			var hist []string
+			nops := rapid.IntRange(2, 6).Draw(rt, kind+"-ops")
+			for k := 0; k < nops; k++ {
+				if rapid.IntRange(0, 2).Draw(rt, kind+"-op") == 0 {
+					c := chal
+					if rapid.Bool().Draw(rt, kind+"-set-other") {
+						c = other
+					}
+					var err error
+					if vv != nil {
+						_, err = vv.WithAAChallenge(bytes.Clone(c))
+					} else {
+						_, err = mv.WithAAChallenge(bytes.Clone(c))
+					}
+					if err != nil {
+						evid.Fail(rt, "verifier-history", repro, "%s.WithAAChallenge refused 8 bytes: %v", kind, err)
+					}
+					inForce = c
+					hist = append(hist, "set:"+hx(c))
+					continue
+				}
+				var err error
+				if vv != nil {
+					_, err = vv.Verify(blob)
+				} else {
+					_, err = mv.Verify(blob)
+				}
+				wantHard := inForce != nil && !bytes.Equal(inForce, chal)
+				hist = append(hist, fmt.Sprintf("verify:err=%v", err != nil))
+				if (err != nil) != wantHard {
+					r2 := map[string]any{"object": kind, "history": hist, "recordedNonce": hx(chal)}
+					for k, x := range repro {
+						r2[k] = x
+					}
+					evid.Fail(rt, "verifier-history", r2, "%s object after the history %v: Verify returned err=%v, but the challenge in force is %x and the recorded nonce %x (hard failure expected: %v)", kind, hist, err, inForce, chal, wantHard)
+				}
+			}
+			evid.Count("verifier-history/"+kind, 1)
 		}
 
 		// The binding must not depend on how far evidence verification gets: bundles whose AA
